@@ -319,6 +319,35 @@ class Inliner(object):
                 return self.inline_generator(fn, s, s.value.value, t, caller_names)
         if not isinstance(s, (ast.Expr, ast.Assign, ast.AugAssign, ast.AnnAssign, ast.Return)):
             return None
+        # [helper(...) for x in xs]  ->  an explicit loop, so that the call reaches a value position
+        v = getattr(s, 'value', None)
+        if isinstance(s, (ast.Assign, ast.Return)) and isinstance(v, ast.ListComp) and len(v.generators) == 1 and \
+                not v.generators[0].ifs and not v.generators[0].is_async:
+            inner = [c for c in ast.walk(v.elt) if isinstance(c, ast.Call) and self.target(fn, c) is not None
+                     and not self.target(fn, c)[0].is_generator]
+            if inner:
+                if isinstance(s, ast.Assign) and len(s.targets) == 1 and isinstance(s.targets[0], ast.Name):
+                    acc = s.targets[0].id
+                elif isinstance(s, ast.Return):
+                    acc = 'items'
+                    while acc in caller_names:
+                        acc += '_'
+                else:
+                    acc = None
+                if acc is not None:
+                    g0 = v.generators[0]
+                    init = ast.Assign(targets=[ast.Name(id=acc, ctx=ast.Store())], value=ast.List(elts=[], ctx=ast.Load()))
+                    app = ast.Expr(value=ast.Call(func=ast.Attribute(value=ast.Name(id=acc, ctx=ast.Load()), attr='append',
+                                                                      ctx=ast.Load()), args=[v.elt], keywords=[]))
+                    loop = ast.For(target=g0.target, iter=g0.iter, body=[app], orelse=[])
+                    out = [ast.copy_location(init, s), ast.copy_location(loop, s)]
+                    ast.copy_location(app, v.elt)
+                    ast.copy_location(app.value, v.elt)
+                    if isinstance(s, ast.Return):
+                        out.append(ast.copy_location(ast.Return(value=ast.Name(id=acc, ctx=ast.Load())), s))
+                    for o in out:
+                        ast.fix_missing_locations(o)
+                    return out
         # calls in value positions (not inside lambdas / comprehensions / nested defs)
         calls = []
 
